@@ -26,6 +26,9 @@ enum Op {
 	Sub { tag: String },
 	Batch { tags: Vec<String> },
 	Notif { tag: String },
+	/// a call (what = 0), batch (1) or subscribe (2) whose future the application drops `after_ms` after starting it; the
+	/// server still answers it — before or after the drop
+	Abandoned { what: u8, tags: Vec<String>, after_ms: u64 },
 }
 
 impl Op {
@@ -35,6 +38,7 @@ impl Op {
 			Op::Sub { .. } => "subscribe",
 			Op::Batch { .. } => "batch",
 			Op::Notif { .. } => "notification",
+			Op::Abandoned { .. } => "abandoned",
 		}
 	}
 }
@@ -45,6 +49,7 @@ enum OpResult {
 	Sub(Result<(Value, Vec<Value>), ErrKind>),
 	Batch(Result<(Vec<Result<Value, (i32, Option<String>)>>, usize, usize), ErrKind>),
 	Notif(Result<(), ErrKind>),
+	Abandoned,
 }
 
 #[derive(Debug, Clone, Copy, PartialEq, Eq, Hash)]
@@ -75,7 +80,12 @@ fn gen_case(seed: u64, real_time: bool) -> CaseSpec {
 	let mut ops = Vec::new();
 	for i in 0..k {
 		let tag = format!("t{i}");
-		ops.push(match r.below(10) {
+		ops.push(match r.below(12) {
+			10 | 11 => {
+				let what = r.below(3) as u8;
+				let tags = if what == 1 { (0..1 + r.usize(3)).map(|j| format!("t{i}.{j}")).collect() } else { vec![tag] };
+				Op::Abandoned { what, tags, after_ms: r.below(8) }
+			}
 			0..=3 => Op::Call { tag },
 			4 | 5 => Op::Sub { tag },
 			6..=8 => Op::Batch { tags: (0..1 + r.usize(4)).map(|j| format!("t{i}.{j}")).collect() },
@@ -136,6 +146,28 @@ async fn run_case(spec: &CaseSpec) -> CaseOut {
 		tasks.push(tokio::spawn(async move {
 			tokio::time::sleep(start_delay).await;
 			match op {
+				Op::Abandoned { what, tags, after_ms } => {
+					let fut = async {
+						match what {
+							0 => {
+								let _ = c.request::<Value, _>("call", rpc_params![tags[0].clone()]).await;
+							}
+							1 => {
+								let mut b = BatchRequestBuilder::new();
+								for t in &tags {
+									b.insert("call", rpc_params![t]).unwrap();
+								}
+								let _: Result<BatchResponse<Value>, _> = c.batch_request(b).await;
+							}
+							_ => {
+								let _ = c.subscribe::<Value, _>("sub", rpc_params![tags[0].clone()], "unsub").await;
+							}
+						}
+					};
+					// dropped here if it has not completed by then
+					let _ = tokio::time::timeout(Duration::from_millis(after_ms), fut).await;
+					OpResult::Abandoned
+				}
 				Op::Call { tag } => OpResult::Call(c.request::<Value, _>("call", rpc_params![tag]).await.map_err(|e| err_kind(&e))),
 				Op::Notif { tag } => OpResult::Notif(c.notification("note", rpc_params![tag]).await.map_err(|e| err_kind(&e))),
 				Op::Sub { tag } => match c.subscribe::<Value, _>("sub", rpc_params![tag], "unsub").await {
@@ -513,6 +545,7 @@ fn record(spec: &CaseSpec, o: CaseOut, ev: &mut Evidence, violations: &mut Vec<V
 	ev.count("operations_completed", o.completed as u64);
 	ev.count("library_points_reached", o.trace.len() as u64);
 	ev.count(&format!("misbehave_{:?}", spec.misbehave), 1);
+	ev.count("abandoned_operations", spec.ops.iter().filter(|o| matches!(o, Op::Abandoned { .. })).count() as u64);
 	if o.misbehaved {
 		ev.count("histories_where_the_server_misbehaved", 1);
 	}
